@@ -58,7 +58,7 @@ theorem C20_skeleton_tie : skeleton =
      ("DsspApp", "run", ["super:run"]),
      ("LocalApp", "clean_up", ["if{", "call:get_app_state", "proc:kill", "}"]),
      ("LocalApp", "evaluate", ["super:evaluate", "if{", "raise:SubprocessError", "}"]),
-     ("LocalApp", "is_finished", ["else{", "proc:communicate", "}"]),
+     ("LocalApp", "is_finished", ["if{", "proc:communicate", "}"]),
      ("LocalApp", "join", ["try{", "proc:communicate", "}", "handler:TimeoutExpired{", "call:cancel", "raise:TimeoutError", "}", "assign:FINISHED", "try{", "call:evaluate", "}", "handler:AppStateError{", "raise", "}", "handler:*{", "assign:CANCELLED", "call:clean_up", "raise", "}", "assign:JOINED", "call:clean_up"]),
      ("LocalApp", "run", ["call:chdir", "try{", "call:Popen", "}", "finally{", "call:chdir", "}"]),
      ("MSAApp", "clean_up", ["super:clean_up", "call:cleanup_tempfile", "call:cleanup_tempfile", "call:cleanup_tempfile"]),
@@ -67,7 +67,6 @@ theorem C20_skeleton_tie : skeleton =
      ("MafftApp", "clean_up", ["super:clean_up", "try{", "call:remove", "}", "handler:FileNotFoundError{", "}"]),
      ("MafftApp", "evaluate", ["super:evaluate"]),
      ("MafftApp", "run", ["super:run"]),
-     ("Muscle5App", "clean_up", ["super:clean_up"]),
      ("Muscle5App", "run", ["super:run"]),
      ("MuscleApp", "clean_up", ["super:clean_up", "call:cleanup_tempfile", "call:cleanup_tempfile"]),
      ("MuscleApp", "evaluate", ["super:evaluate"]),
@@ -89,7 +88,7 @@ theorem C20_skeleton_tie : skeleton =
      ("VinaApp", "run", ["super:run"]),
      ("_DumpApp", "clean_up", ["if{", "call:get_app_state", "proc:kill", "}"]),
      ("_DumpApp", "evaluate", ["super:evaluate", "if{", "raise:SubprocessError", "}"]),
-     ("_DumpApp", "is_finished", ["else{", "proc:communicate", "}"]),
+     ("_DumpApp", "is_finished", ["if{", "proc:communicate", "}"]),
      ("_DumpApp", "join", ["try{", "proc:communicate", "}", "handler:TimeoutExpired{", "call:cancel", "raise:TimeoutError", "}", "assign:FINISHED", "try{", "call:evaluate", "}", "handler:AppStateError{", "raise", "}", "handler:*{", "assign:CANCELLED", "call:clean_up", "raise", "}", "assign:JOINED", "call:clean_up"]),
      ("_DumpApp", "run", ["call:Popen"])] := by decide
 
@@ -213,11 +212,11 @@ theorem C20_gen_facts : BiotiteModel.Gen.C20.facts =
      ("MSAApp.get_matrix_file_path", "None unless a matrix was given"),
      ("ClustalOmegaApp.__init__.defaults", "bin_path='clustalo',matrix=None"),
      ("ClustalOmegaApp.run.options", "--distmat-in,--distmat-out,--force,--full,--guidetree-in,--guidetree-out,--in,--out,--output-order=tree-order,--seqtype"),
-     ("ClustalOmegaApp.evaluate.tests", "not self._mbed / self._tree is None"),
+     ("ClustalOmegaApp.evaluate.tests", "not self.A1 / self.A3 is None"),
      ("ClustalOmegaApp.evaluate.distmat", "np.loadtxt skiprows=1"),
      ("ClustalOmegaApp.evaluate.distmat-columns", "(:, 1:)"),
-     ("ClustalOmegaApp.get_distance_matrix.test", "self._mbed"),
-     ("ClustalOmegaApp.run.tests", "self.get_seqtype() == 'protein' / self._tree is None / not self._mbed / self._dist_matrix is not None / self._tree is not None"),
+     ("ClustalOmegaApp.get_distance_matrix.test", "self.A1"),
+     ("ClustalOmegaApp.run.tests", "self.get_seqtype() == 'protein' / self.A3 is None / not self.A1 / self.A2 is not None / self.A3 is not None"),
      ("ClustalOmegaApp.super-matrix", "None"),
      ("MuscleApp.__init__.defaults", "bin_path='muscle',matrix=None"),
      ("MuscleApp.run.options", "-center,-gapextend,-gapopen,-hydrofactor,-in,-matrix,-out,-quiet,-seqtype,-tree1,-tree2"),
@@ -227,7 +226,7 @@ theorem C20_gen_facts : BiotiteModel.Gen.C20.facts =
      ("MuscleApp.version-before-super", "True"),
      ("MuscleApp.set_gap_penalty.branches", "[isinstance(p0, numbers.Real)] check,store,store | p0 > 0 || [isinstance(p0, Sequence)] check,store,store | p0[0] > 0 or p0[1] > 0"),
      ("MuscleApp.get_guide_tree.defaults", "iteration='identity'"),
-     ("MuscleApp.get_guide_tree.tests", "p0 == 'kmer'->return self._tree1 / p0 == 'identity'->return self._tree2"),
+     ("MuscleApp.get_guide_tree.tests", "p0 == 'kmer'->return self.A3 / p0 == 'identity'->return self.A4"),
      ("MuscleApp.run.gap-format", ".1f"),
      ("MuscleApp.align.defaults", "bin_path=None,matrix=None,gap_penalty=None"),
      ("Muscle5App.__init__.defaults", "bin_path='muscle'"),
@@ -252,7 +251,7 @@ theorem C20_gen_facts : BiotiteModel.Gen.C20.facts =
      ("BlastWebApp.run.order", "requests.get,self._contact,self._request"),
      ("BlastWebApp.is_finished.order", "requests.get,self._contact"),
      ("map_matrix.none-test", "p0 is None->TypeError"),
-     ("map_matrix.corner", "v2[:v0, :v0] = p0.score_matrix()")] := by decide +kernel
+     ("map_matrix.corner", "upper-left square = p0.score_matrix()")] := by decide +kernel
 
 /-- Value of a regenerated fact. -/
 def fact (k : String) : String := ((BiotiteModel.Gen.C20.facts.find? (·.1 = k)).map (·.2)).getD ""
